@@ -248,6 +248,13 @@ def iter_domain(E, it_node, st, fr):
     raise CheckerError(f"{fr.qname}: for-loop over {v.t} not modelled (line {it_node.lineno})")
 
 
+def _bind_loop_seq(fr, st, binds):
+    """`loop_seq` in an invariant names the sequence the innermost enclosing for-loop iterates over"""
+    doms = getattr(fr, "loop_doms", None)
+    if doms and doms[-1] is not None and doms[-1] in st.locals:
+        binds["loop_seq"] = st.locals[doms[-1]]
+
+
 def check_invs(E, fr, st, spec: LoopSpec | None, k, kind, idxv):
     if spec is None:
         return
@@ -255,6 +262,7 @@ def check_invs(E, fr, st, spec: LoopSpec | None, k, kind, idxv):
     if spec.idx and idxv is not None:
         from .engine import V
         binds[spec.idx] = V(INT, idxv)
+    _bind_loop_seq(fr, st, binds)
     from .spec import split_tags
     for i, inv in enumerate(spec.inv):
         g = E.sev_bool(inv, st, fr, binds)
@@ -269,6 +277,7 @@ def assume_invs(E, fr, st, spec, idxv):
     binds = {}
     if spec.idx and idxv is not None:
         binds[spec.idx] = V(INT, idxv)
+    _bind_loop_seq(fr, st, binds)
     for inv in spec.inv:
         st.assume(E.sev_bool(inv, st, fr, binds))
 
@@ -382,6 +391,9 @@ def exec_for(E, s: ast.For, st, fr):
     names = assigned_names(s.body) | assigned_names([ast.Expr(value=s.target)] if False else []) | {n.id for n in ast.walk(s.target) if isinstance(n, ast.Name)}
     entry = st.copy()
     fr.loop_entry.append(entry)
+    if not hasattr(fr, "loop_doms"):
+        fr.loop_doms = []
+    fr.loop_doms.append("$dom%d" % id(s) if dom.get("seq") is not None else None)
     try:
         # 1. invariant holds on entry (idx = 0)
         check_invs(E, fr, st, spec, k, "inv-entry", z3.IntVal(0))
@@ -448,6 +460,7 @@ def exec_for(E, s: ast.For, st, fr):
         return result
     finally:
         fr.loop_entry.pop()
+        fr.loop_doms.pop()
 
 
 def exec_while(E, s: ast.While, st, fr):
